@@ -266,6 +266,27 @@ class TablesFrame(Unit):
         root = os.path.dirname(minecraft.__file__)
         names = set(TABLES) | {'KNOWN_MINECRAFT_VERSION_RECORDS'}
         hits = []
+        # initglobals and the private helpers that ONLY it (or such a helper) calls form the one writer of the tables: a helper
+        # split off initglobals is still initglobals (the interprocedural step of the lock scan, applied here)
+        init_tree = _ast.parse(open(minecraft.__file__, encoding='utf-8').read())
+        tops = {n.name: n for n in init_tree.body if isinstance(n, (_ast.FunctionDef, _ast.AsyncFunctionDef))}
+        callers = {name: set() for name in tops}
+        module_level_calls = set()
+        for owner, node in list(tops.items()) + [(None, init_tree)]:
+            body = node.body if owner is not None else [n for n in init_tree.body if not isinstance(n, (_ast.FunctionDef, _ast.AsyncFunctionDef, _ast.ClassDef))]
+            for stmt in body:
+                for sub in _ast.walk(stmt):
+                    if isinstance(sub, _ast.Call) and isinstance(sub.func, _ast.Name) and sub.func.id in tops:
+                        (callers[sub.func.id].add(owner) if owner is not None else module_level_calls.add(sub.func.id))
+        init_only = {'initglobals'}
+        changed = True
+        while changed:
+            changed = False
+            for name in tops:
+                if name not in init_only and name.startswith('_') and callers[name] and callers[name] <= init_only and \
+                        name not in module_level_calls:
+                    init_only.add(name)
+                    changed = True
         for dp, _dn, fns in os.walk(root):
             for fn in fns:
                 if not fn.endswith('.py'):
@@ -310,7 +331,7 @@ class TablesFrame(Unit):
                                 child.func.attr in TablesFrame.MUTATORS and table_of(child.func.value):
                             t = (table_of(child.func.value), '.%s()' % child.func.attr)
                         if t is not None:
-                            inside_init = os.path.samefile(path, minecraft.__file__) and (fname or '').split('.')[0] == 'initglobals'
+                            inside_init = os.path.samefile(path, minecraft.__file__) and (fname or '').split('.')[0] in init_only
                             # the record list is the public extension point: user code appends to it; library code may build it
                             # at import (module level of minecraft/__init__.py) but must not edit it elsewhere
                             at_import = os.path.samefile(path, minecraft.__file__) and fname is None
